@@ -71,7 +71,7 @@ def make_request(ch, i, uihb=True):
         cfg = {"max_inputs": 2, "max_outputs": 2, "max_nodes": 3, "big": False}
         while True:
             req, exp, info = c01.gen_request(sub, cfg, False)
-            if info["kind"] != "hash":
+            if info["kind"] != "hash" and info["path"] in c01.PATHS[:2]:
                 break
         der = der_for(exp["path"] + exp["tx"] + exp["receipt"] + exp["merkle"])
 
@@ -129,12 +129,13 @@ def run_one(ch, cfg):
     nfaults = 0 if tcp else [0, 0, 1][ch.draw(3, "link.faults")]
     targets = {}
     for _ in range(nfaults):
-        # "fatal-status": a status word outside the device's own range ends the manager by design
+        # "fatal-status" / "fatal-answer": a status word outside the device's own range, or an answer
+        # the manager cannot read, ends the manager by design
         # (reply without result code, shutdown by the helper thread) while other clients are queued:
         # whoever is still served gets their own reply, and the device sees whole requests only
         targets[4 + ch.draw(80, "fault.at")] = ch.pick(
-            ["read_err_before", "read_err_after", "write_err", "timeout_before", "fatal-status"],
-            "fault.kind")
+            ["read_err_before", "read_err_after", "write_err", "timeout_before", "fatal-status",
+             "fatal-answer"], "fault.kind")
     faulted = set()
     fatal = []
 
@@ -145,6 +146,11 @@ def run_one(ch, cfg):
         if kind == "fatal-status":
             fatal.append(idx)
             return ("sw", 0x6E00)
+        if kind == "fatal-answer":
+            # an answer cut down to one byte: the manager cannot read it, answers without a result code
+            # and goes down (by design) - with other clients queued
+            fatal.append(idx)
+            return ("alter", lambda b: b[:1])
         return kind
     dcfg = {"sig_from_request": True,
             "post_exit_signer": {"mode": 0x04, "delay": 0.3, "silence": "read_err"},
@@ -242,7 +248,15 @@ def run_one(ch, cfg):
             rep = json.loads(data.decode())
             assert isinstance(rep, dict) and data.count(b"\n") == 1
             if fatal and d[2] in faulted:
-                continue          # the request that met the fatal status: no result code by design
+                # the request that met the fatal status: no result code by design - and certainly
+                # nothing that was computed for somebody else
+                # (what a manager makes of an answer it cannot read is not judged; handing out the
+                # reply another client of this run received is)
+                others = [o[1] for j, o in done.items() if j != i and o[0] == "answered"]
+                if set(rep) - {"errorcode"} and chk(rep) and data in others:
+                    viol.append(("reply/not-own", "client %d (%s), whose request met the fatal status, "
+                                 "received another client's reply %s" % (i, kinds[i], str(rep)[:160])))
+                continue
         except Exception:
             viol.append(("reply/malformed", "client %d (%s) received %r" % (i, kinds[i], data[:200])))
             continue
